@@ -18,7 +18,7 @@ def _interleave(*lists):
 
 class C16(Prop):
     id = 'C16'
-    level = 'exploration'
+    level = 'other'
     technique = ('run-time contract on the real oracles against a brute-force joint-table oracle '
                  '(bounded; the deductive normalisation-idiom tier is added separately)')
     explanation = ('Bounded tier only (labelled bounded, never counted as proved). '
@@ -53,9 +53,6 @@ class C16(Prop):
     quick_budget_s = 80
     thorough_budget_s = 540
 
-    def deductive(self, tier):
-        return []
-
     # ------------------------------------------------------------------ cases
     def cases(self, tier, seed):
         import numpy as np
@@ -69,6 +66,12 @@ class C16(Prop):
         def pot():
             return dict(pot_seed=int(rng.randint(1 << 30)), pot_scale=float(rng.choice([0.5, 1.0, 3.0])),
                         pot_kind=str(rng.choice(['normal', 'normal', 'spiky'])))
+
+        # the recorded known finding 'normalised:neginf-potentials' (see known_findings.json): always exercised so that its
+        # KNOWN-FINDING line is printed on every run.  Other -inf potentials are not generated (same root cause).
+        yield dict(kind='gbp-norm', attrs='abcdef', shape=[2, 3, 1, 2, 1, 2],
+                   cliques=[['b', 'c', 'f'], ['a', 'd', 'e'], ['d'], ['b', 'e', 'f'], ['a'], ['b', 'c', 'd'], ['a', 'c', 'd']],
+                   minimal=False, iters=1, total=0.001, warm=True, pot_seed=312967656, pot_scale=10.0, pot_kind='neginf')
 
         # ---------------- GBP exactness
         lib = []
@@ -148,7 +151,7 @@ class C16(Prop):
                      pot_seed=int(rng.randint(1 << 30)), pot_scale=float(rng.choice([0.1, 1.0, 10.0, 100.0])),
                      pot_kind=str(rng.choice(['normal', 'spiky'])))
             norm.append(c)
-        return _interleave(gbp, lbp, norm)
+        yield from _interleave(gbp, lbp, norm)
 
     def nontrivial(self, case):
         return len(case['cliques']) >= 2 and case.get('pot_kind') != 'zero'
@@ -263,6 +266,8 @@ class C16(Prop):
     def finding_key(self, case, clause, detail):
         if clause in ('gbp-exact', 'gbp-project-exact') and detail.get('potential_on_region_with_parent'):
             return KNOWN_KEY
+        if clause in ('normalised', 'project-normalised') and case.get('pot_kind') == 'neginf':
+            return 'normalised:neginf-potentials'
         return 'bounded:%s' % clause
 
 
